@@ -33,6 +33,9 @@ ThenCases ==
         f \in {"then", "thenf"},
         p \in {p \in (Arrays \cup Scalars) \X (Arrays \cup Scalars) :
                  (IsArr(p[1]) \/ IsArr(p[2])) /\ (p[1].kind \in {"BA1", "BA2", "bvar"})}}
+    (* the function form with a Python bool as antecedent (no method form exists for it) *)
+    \cup {[form |-> "thenf", op |-> "then", ops |-> WithBases(<<p[1], p[2]>>, 0)] :
+            p \in {p \in Scalars \X Arrays : p[1].kind = "blit"}}
 CondSel == {A1("BA1", 2), A1("IA1", 2), A2("BA2", 1, 3), A1("BA1", 0), O("bvar", 0, 0, FALSE, 0), O("blit", 0, 0, TRUE, 0)}
 CondArm == {A1("IA1", 2), A1("IA1", 3), A1("BA1", 2), A2("IA2", 1, 3), A1("IA1", 0), O("ivar", 0, 0, FALSE, 0),
             O("ilit", 0, 0, FALSE, 3), O("bvar", 0, 0, FALSE, 0)}
